@@ -82,6 +82,77 @@ for sc in (SCN.SCENARIOS[1], SCN.SCENARIOS[5]):
 # first shell removed at the end of exploration: the resumed bounds must be the
 # stored ones
 from nautilus import Sampler  # noqa: E402
+import shutil  # noqa: E402
+
+
+def _gauss(x):
+    return -0.5 * np.sum(((x - 0.5) / 0.1)**2)
+
+
+# kill during the likelihood evaluation of batch k+1: the checkpoint on disk is
+# the one written after k batches (possibly followed by a bound insertion);
+# resuming from it must reproduce the uninterrupted run. The bound-insertion
+# criterion is driven by n_like_new_bound here (the tests only exercise
+# n_update).
+for (nlive, nlnb) in ((100, 100), (120, 300)):
+    kw = dict(n_dim=2, n_live=nlive, n_like_new_bound=nlnb, n_networks=0,
+              seed=5)
+    ref_s = Sampler(SCN.prior, _gauss, **kw)
+    ref_s.run(n_eff=400, verbose=False)
+    ref = result(ref_s)
+    with tempfile.TemporaryDirectory() as d:
+        path = os.path.join(d, 'k.h5')
+        s1 = Sampler(SCN.prior, _gauss, filepath=path, **kw)
+        snaps = []
+        orig = s1.evaluate_likelihood
+
+        def spy(points, orig=orig, snaps=snaps, path=path, d=d):
+            if os.path.exists(path):
+                c = os.path.join(d, 'snap{}.h5'.format(len(snaps)))
+                shutil.copyfile(path, c)
+                snaps.append(c)
+            return orig(points)
+        s1.evaluate_likelihood = spy
+        s1.run(n_eff=400, verbose=False)
+        if not same(ref, result(s1)):
+            bad.append(dict(scenario='kill-in-batch', what='checkpointed run '
+                            'differs from the run without a file'))
+        # ... and the same configuration stopped through n_like_max
+        nb = ref['n_like'] // 100
+        for k in sorted(set(list(range(1, min(nb, 7))) + list(np.linspace(
+                1, nb - 1, nstops).astype(int)))):
+            sp = os.path.join(d, 's{}.h5'.format(k))
+            a = Sampler(SCN.prior, _gauss, filepath=sp, **kw)
+            a.run(n_eff=400, n_like_max=k * 100, verbose=False)
+            del a
+            b = Sampler(SCN.prior, _gauss, filepath=sp, resume=True,
+                        **dict(kw, seed=4))
+            b.run(n_eff=400, verbose=False)
+            if not same(ref, result(b)):
+                bad.append(dict(scenario='stop after {} batches, n_live={} '
+                                'n_like_new_bound={}'.format(k, nlive, nlnb),
+                                what='resumed run differs from the '
+                                'uninterrupted run'))
+                break
+        pick = sorted(set(np.linspace(0, len(snaps) - 1, 2 * nstops)
+                          .astype(int))) if snaps else []
+        for k in pick:
+            rp = os.path.join(d, 'r.h5')
+            shutil.copyfile(snaps[k], rp)
+            try:
+                s2 = Sampler(SCN.prior, _gauss, filepath=rp, resume=True,
+                             **dict(kw, seed=999))
+                s2.run(n_eff=400, verbose=False)
+                ok = same(ref, result(s2))
+                what = 'run resumed from the checkpoint on disk during ' \
+                    'batch {} differs from the uninterrupted run'.format(k + 2)
+            except Exception as e:
+                ok, what = False, 'resume raised ' + type(e).__name__
+            if not ok:
+                bad.append(dict(scenario='kill-in-batch n_live={} '
+                                'n_like_new_bound={}'.format(nlive, nlnb),
+                                what=what))
+                break
 
 
 def _like(x):
